@@ -257,6 +257,7 @@ def main():
     ap.add_argument("--rev", default=None, help="analyse the tree of a git revision of /repo (development only)")
     ap.add_argument("--explain", default=None)
     ap.add_argument("--no-controls", action="store_true")
+    ap.add_argument("--patch", default=None, help="analyse the tree with a unified diff applied in memory (development only)")
     a = ap.parse_args()
     if a.explain:
         d = json.load(open(a.explain))
@@ -268,6 +269,8 @@ def main():
         mod = importlib.import_module(f"gcverif.props.{prop.lower()}")
         sources = sources_at_rev(a.rev) if a.rev else None
         pm = pmmod.ProgramModel(sources)
+        if a.patch:
+            pm = pm.mutated(apply_unified_diff(pm.sources, open(a.patch).read()))
         ctx = Ctx(prop, a.tier)
         run_full(mod, pm, ctx)
         base_keys = {f.key_tuple() for f in ctx.findings}
